@@ -40,6 +40,12 @@ pub struct It {
     /// pending map for the children: x -> pa*x + pb; identity = (1, 0)
     pub pa: u64,
     pub pb: u64,
+    /// asymmetric part of the pending map: added to the FIRST element of the subtree only, so the
+    /// left and the right child receive different maps (left: (pa, pb, pd); right: (pa, pb, 0))
+    pub pd: u64,
+    /// size of the left subtree as of the last update(): tells whether this node is itself the
+    /// first element of its subtree
+    pub ln: usize,
     /// how many attached modifications the pending map is composed of
     pub pdepth: u32,
     // aggregate over the subtree, in sequence order
@@ -54,22 +60,33 @@ pub struct It {
 
 impl It {
     pub fn new(uid: u32, x: u64) -> It {
-        It { uid, x: x % P, pa: 1, pb: 0, pdepth: 0, n: 1, sum: x % P, hash: x % P, pw: BASE, g: 1 }
+        It { uid, x: x % P, pa: 1, pb: 0, pd: 0, ln: 0, pdepth: 0, n: 1, sum: x % P, hash: x % P, pw: BASE, g: 1 }
     }
     pub fn pending_is_identity(&self) -> bool {
-        self.pa == 1 && self.pb == 0
+        self.pa == 1 && self.pb == 0 && self.pd == 0
     }
     /// Attach the modification x -> a*x + b to the subtree rooted at this item.
     pub fn modify(&mut self, a: u64, b: u64) {
-        self.modify_depth(a, b, 1)
+        self.modify_depth(a, b, 0, 1)
     }
-    fn modify_depth(&mut self, a: u64, b: u64, depth: u32) {
+    /// Attach x -> a*x + b to every element of the subtree and, after that, add d to its FIRST
+    /// element: a lawful modification under which the two children get different maps.
+    pub fn modify_first(&mut self, a: u64, b: u64, d: u64) {
+        self.modify_depth(a, b, d, 1)
+    }
+    fn modify_depth(&mut self, a: u64, b: u64, d: u64, depth: u32) {
         self.x = addmod(mulmod(a, self.x), b);
-        self.sum = addmod(mulmod(a, self.sum), mulmod(b, self.n as u64 % P));
-        self.hash = addmod(mulmod(a, self.hash), mulmod(b, self.g));
+        if self.ln == 0 {
+            // no left subtree: this node is the first element
+            self.x = addmod(self.x, d);
+        }
+        self.sum = addmod(addmod(mulmod(a, self.sum), mulmod(b, self.n as u64 % P)), d);
+        // the first element has weight BASE^0 in the hash
+        self.hash = addmod(addmod(mulmod(a, self.hash), mulmod(b, self.g)), d);
         // new pending = (this map) after (old pending)
         self.pa = mulmod(a, self.pa);
         self.pb = addmod(mulmod(a, self.pb), b);
+        self.pd = addmod(mulmod(a, self.pd), d);
         self.pdepth = self.pdepth.saturating_add(depth);
     }
 }
@@ -107,6 +124,7 @@ impl TreapItem for It {
         let (ln, ls, lh, lp, lg) = left.map(|l| (l.n, l.sum, l.hash, l.pw, l.g)).unwrap_or((0, 0, 0, 1, 0));
         let (rn, rs, rh, rp, rg) = right.map(|r| (r.n, r.sum, r.hash, r.pw, r.g)).unwrap_or((0, 0, 0, 1, 0));
         self.n = ln + 1 + rn;
+        self.ln = ln;
         self.sum = addmod(addmod(ls, self.x), rs);
         let lpb = mulmod(lp, BASE);
         self.hash = addmod(addmod(lh, mulmod(lp, self.x)), mulmod(lpb, rh));
@@ -118,14 +136,15 @@ impl TreapItem for It {
         if self.pending_is_identity() && self.pdepth == 0 {
             return;
         }
-        let (a, b, d) = (self.pa, self.pb, self.pdepth);
+        let (a, b, first, d) = (self.pa, self.pb, self.pd, self.pdepth);
         let mut carried = false;
         if let Some(l) = left {
-            l.modify_depth(a, b, d);
+            // the first element of this subtree lies in the left subtree
+            l.modify_depth(a, b, first, d);
             carried = true;
         }
         if let Some(r) = right {
-            r.modify_depth(a, b, d);
+            r.modify_depth(a, b, 0, d);
             carried = true;
         }
         if carried {
@@ -136,6 +155,7 @@ impl TreapItem for It {
         }
         self.pa = 1;
         self.pb = 0;
+        self.pd = 0;
         self.pdepth = 0;
     }
 }
